@@ -183,8 +183,10 @@ func (p *processor) processEvent(event *Event) (isPassed bool, e *Event) {
 		// there is busy action, waiting for next sequential event.
 		event = stream.blockGet()
 		if event.IsTimeoutKind() {
-			// pass timeout directly to plugin which requested next sequential event.
-			event.action = lastAction
+			// pass timeout directly to plugin which requested next sequential event:
+			// it's the first busy action, lastAction may be an earlier action
+			// which has just discarded an event of the sequence.
+			event.action = p.firstBusyAction(lastAction)
 		}
 	}
 }
@@ -242,6 +244,17 @@ func (p *processor) doActions(event *Event) (isPassed bool, lastAction int) {
 
 	// return the last action index as the event has passed all the actions
 	return true, l - 1
+}
+
+// firstBusyAction returns index of the first action which waits for the next
+// sequential event, or def if there is no such action.
+func (p *processor) firstBusyAction(def int) int {
+	for i, busy := range p.busyActions {
+		if busy {
+			return i
+		}
+	}
+	return def
 }
 
 func (p *processor) tryMarkBusy(index int) {
